@@ -38,6 +38,10 @@ type linzSlice struct {
 func init() {
 	slices["linz"] = func() slice { return &linzSlice{} }
 	generators["linz"] = func(r *rand.Rand, n int, tier string, emit func(string) string) { genLinzKinds(r, n, tier, emit, nil) }
+	// the rate-limiter-only stream (C05): more threads with one operation each, most of them with a max wait of zero
+	generators["linzrl"] = func(r *rand.Rand, n int, tier string, emit func(string) string) {
+		genLinzKinds(r, n, tier, emit, []string{"smooth", "smooth", "bursty"})
+	}
 	// the bulkhead-only stream (C06)
 	generators["linzbh"] = func(r *rand.Rand, n int, tier string, emit func(string) string) {
 		genLinzKinds(r, n, tier, emit, []string{"bulkhead"})
@@ -273,15 +277,25 @@ func genLinzKinds(r *rand.Rand, n int, tier string, emit func(string) string, ki
 		case "smooth":
 			emit(fmt.Sprintf("linz cfg smooth %d", pick(r, 1, 10, 100, 1000)))
 			ops = []string{"a1m-1", "a1m0", "a2m150", "y1", "y1", "y2", "a3m-1", "a1m5"}
+			if len(kinds) == 3 && kinds[0] == "smooth" {
+				ops = []string{"a1m0", "a1m0", "y1", "y1", "y1", "a1m5", "a1m-1", "a2m150"}
+			}
 		case "bursty":
 			emit(fmt.Sprintf("linz cfg bursty %d %d", 1+r.Intn(5), pick(r, 10, 100, 1000)))
 			ops = []string{"a1m-1", "a1m0", "a2m150", "y1", "y1", "y3", "a4m-1", "a1m5"}
 		}
 		for i := 0; i < rounds; i++ {
 			nt := 2 + r.Intn(3)
+			limiterOnly := len(kinds) == 3 && kinds[0] == "smooth"
+			if limiterOnly {
+				nt = 4 + r.Intn(4)
+			}
 			var ths []string
 			for t := 0; t < nt; t++ {
 				k := 1 + r.Intn(2)
+				if limiterOnly {
+					k = 1
+				}
 				var os []string
 				for j := 0; j < k; j++ {
 					os = append(os, pick(r, ops...))
